@@ -14,4 +14,5 @@ def main (args : List String) : IO UInt32 := do
   | ["C09"] => Proto.runLoop C09.driverStep (); return 0
   | ["C20"] => Proto.runLoop (C20.driverStep C20.Generated.schema) none; return 0
   | ["C11"] => Proto.runLoop C11.driverStep (); return 0
+  | ["C08"] => Proto.runLoop C08.driverStep {}; return 0
   | _ => IO.eprintln s!"unknown driver {args}"; return 2
